@@ -99,6 +99,8 @@ class C14(F.Spec):
             yield self.gen(rng, i)
         for i in range(40 if tier == "quick" else 400):
             yield self.gen_keep(rng, i)
+        for i in range(80 if tier == "quick" else 800):
+            yield self.gen_names(rng, i)
 
     def gen(self, rng, i):
         o = self.offsets()
@@ -151,7 +153,7 @@ class C14(F.Spec):
             req = bytes(req)
         elif shape == "random":
             req = b"POST / HTTP/1.1\r\n\r\n" + rb(rng, rng.randint(1, 600))
-        ops += ["conn", "show"]
+        ops += ["formlog 1", "conn", "show"]
         segs = [req]
         if shape == "split" and len(fields) >= 2:
             # cut after a '&' (field boundary) inside the body
@@ -164,6 +166,47 @@ class C14(F.Spec):
         meta = {"shape": shape, "fields": [(k.decode(), v.hex()) for k, v in fields], "req": req.hex(), "body_off": len(req) - len(body),
                 "tags": ["shape:" + shape] + ["f:" + k.decode() for k, _ in fields]}
         return F.Case("gen%d-%s" % (i, shape), ops, meta)
+
+    def table_names(self):
+        if not hasattr(self, "_names"):
+            import re
+            import common as C
+            import os
+            txt = open(os.path.join(C.LEAN, "SuplaVerif", "Gen", "FormTable.lean")).read()
+            self._names = [bytes(int(x) for x in m.split(",")) for m in re.findall(r"name := \[([0-9, ]+)\]", txt)]
+        return self._names
+
+    def gen_names(self, rng, i):
+        """requests over the whole regenerated name table (both protocol selections, the MQTT flag preset or not, unknown
+        names, names inside values, empty and over-long values): compared with the scanner model event by event"""
+        o = self.offsets()
+        tbl = self.table_names()
+        ops = []
+        if rng.random() < .5:
+            ops.append("set %d %s" % (o["flags"], "01000000"))
+        ops.append("stack %02x" % rng.choice([0, 0xa5]))
+        fields = []
+        for _ in range(rng.randint(0, 9)):
+            nm = rng.choice(tbl + [b"zzz", b"pro", b"pro", b"si", b"sidx"]) if rng.random() < .9 else rb(rng, 3)
+            kind = rng.choice(["num", "num", "text", "long", "empty", "esc", "nested"])
+            if kind == "num":
+                v = rng.choice([b"0", b"1", b"2", b"-1", b"77", b"100", b"65535", b"123456789012345"])
+            elif kind == "text":
+                v = bytes(rng.choice(b"abcxyz019.-_") for _ in range(rng.randint(1, 20)))
+            elif kind == "long":
+                v = bytes(rng.choice(b"abcdefgh") for _ in range(rng.choice([11, 12, 13, 31, 32, 33, 63, 64, 65, 99, 100, 101, 255, 256, 300])))
+            elif kind == "esc":
+                v = enc(rng, bytes(rng.choice(b"ab c@/:&=%+") for _ in range(rng.randint(1, 12))), 0.5) + rng.choice([b"", b"%", b"%4", b"%zz"])
+            elif kind == "nested":
+                v = b"xx" + rng.choice(tbl) + b"=" + b"9" * rng.randint(0, 3)       # a name position inside a value
+            else:
+                v = b""
+            fields.append((nm, v))
+        body = b"&".join(k + b"=" + v for k, v in fields) + rng.choice([b"", b"", b"&", b"\r\n"])
+        line = rng.choice([b"POST / HTTP/1.1"] * 6 + [b"GET / HTTP/1.1", b"POST /x HTTP/1.1", b"POST / HTTP/1.1\r\nCookie: sid=evil; led=1"])
+        req = line + b"\r\nHost: 192.168.4.1\r\n\r\n" + body
+        ops += ["formlog 1", "conn", "show", "seg " + req.hex(), "show"]
+        return F.Case("names%d" % i, ops, {"shape": "names", "tags": ["shape:names", "nf:%d" % min(len(fields), 5)]})
 
     def gen_keep(self, rng, i):
         """a long password is stored (its overflow part behind the e-mail), then a form without a password changes the e-mail:
@@ -210,12 +253,24 @@ class C14(F.Spec):
         ops, exp = [], []
         if me.get("shape") == "keep":
             return self.derive_keep(case, raw)
+        if me.get("shape") in ("form", "get", "path", "few", "mutated", "random", "names"):
+            # the whole scanner against its Lean model (Model/FormScan with the regenerated table): every field handed to
+            # its assignment (hook ce6c071), in order, with the running count, and whether the count reaches the threshold
+            rs0 = self.recs(case, raw)
+            segs = [(op, g) for op, g in zip(case.ops, raw) if op.startswith("seg ")]
+            if rs0 and len(segs) == 1:
+                o = self.offsets()
+                mq = int.from_bytes(self.fld(rs0[0], "flags"), "little") & 1
+                ops.append("scan %d %s" % (mq, segs[0][0].split()[1]))
+                g = segs[0][1]
+                acted = any(x.startswith("FLASH write 245760") or x == "RESTART" for x in g)
+                exp.append([x for x in g if x.startswith("FVAR ")] + ["COUNT %d" % (1 if acted else 0)])
         if me.get("shape") != "form":
-            return "", []
+            return ("\n".join(ops) + "\n", exp) if ops else ("", [])
         rs = self.recs(case, raw)
         saved = any(x.startswith("FLASH write 245760") for g in raw[-2:] for x in g)
         if len(rs) < 2 or not saved:
-            return "", []
+            return ("\n".join(ops) + "\n", exp) if ops else ("", [])
         before, after = rs[0], rs[-1]
         req = bytes.fromhex(me["req"])
         o = self.offsets()
@@ -246,6 +301,12 @@ class C14(F.Spec):
                 ops.append("margin %s" % rh)
                 exp.append(["NUM %d" % int.from_bytes(self.fld(after, "tm")[int(k[2]):int(k[2]) + 1], "little", signed=True)])
         return "\n".join(ops) + "\n", exp
+
+    def canon_model(self, groups):
+        out = []
+        for g in groups:
+            out.append([("COUNT " + x.split()[2]) if x.startswith("COUNT ") else x for x in g])
+        return out
 
     def monitor(self, case, groups, rc, err):
         if rc != 0:
